@@ -48,6 +48,7 @@ type c10Case struct {
 var c10Keys = []string{
 	"rsa512e65537", "rsa1024e65537", "rsa2040e65537", "rsa2047e65537", "rsa2048e65537", "rsa3072e65537", "rsa4096e65537",
 	"rsa2048e3", "rsa2048e17", "rsa2048e65535", "rsa3072e3", "rsa2049e65537", "rsa1536e65537",
+	"rsa2048e65536", "rsa3072e65536", "rsa2048e65539", "rsa2048e1", "rsa2048e2",
 	"p224", "p256", "p384", "p521", "ed25519", "dsa1024", "x25519",
 }
 
